@@ -486,14 +486,54 @@ def case_term(sc, T):
 
 
 HEADER = '''From Coq Require Import List NArith ZArith Bool String.
-From NB Require Import Base.Json Gen.ServerFacts Sys.Server Sys.ServerRun.
+From NB Require Import Base.Json.
+From C20P Require Import ServerFacts.
+From C20P Require Import Server.
+From C20P Require Import ServerRun.
 Import ListNotations.
 Local Open Scope string_scope.
 Local Open Scope list_scope.
 '''
 
 
-def run_coq_cases(terms, show=False):
+class PrivateModel:
+    """The executable model compiled in a private directory from THIS run's translation of $NBDIME_REPO (logical root
+    C20P), so that the correspondence does not depend on what concurrent builds do to the shared coq/Gen directory.
+    Same sources: coq/Sys/Server.v, coq/Sys/ServerRun.v and the text tools/gen/gen_server.py produces."""
+    def __init__(self):
+        self.dir = tempfile.mkdtemp(prefix='nbv_c20model_')
+        self.error = None; self.facts_text = None
+        try:
+            sys.path.insert(0, os.path.join(core.VERIF, 'tools', 'gen'))
+            import gen_server
+            try:
+                self.facts_text = gen_server.render()
+            except BaseException as e:
+                self.error = 'translator: %s' % e; return
+            finally:
+                sys.path.pop(0)
+            def priv(txt):
+                txt = txt.replace('From NB Require Import Gen.ServerFacts.', 'From C20P Require Import ServerFacts.')
+                return txt.replace('From NB Require Import Sys.Server.', 'From C20P Require Import Server.')
+            open(os.path.join(self.dir, 'ServerFacts.v'), 'w').write(self.facts_text)
+            for f in ('Server.v', 'ServerRun.v'):
+                open(os.path.join(self.dir, f), 'w').write(priv(open(os.path.join(core.COQ, 'Sys', f)).read()))
+            for f in ('ServerFacts.v', 'Server.v', 'ServerRun.v'):
+                p = subprocess.run(['timeout', '600', 'coqc', '-Q', core.COQ, 'NB', '-Q', self.dir, 'C20P', f], capture_output=True, text=True, cwd=self.dir)
+                if p.returncode != 0:
+                    self.error = 'coqc %s: %s' % (f, (p.stdout + p.stderr)[-1200:]); return
+        except Exception as e:
+            self.error = repr(e)
+
+    def store_order(self):
+        m = re.search(r'Definition store_order : store_order_t := (\w+)\.', self.facts_text or '')
+        return m.group(1) if m else None
+
+    def close(self):
+        shutil.rmtree(self.dir, ignore_errors=True)
+
+
+def run_coq_cases(pm, terms, show=False):
     """terms: list of (index, coq record text).  Returns ({index: [mismatching steps]}, error text or None)."""
     if not terms: return {}, None
     chunks = [terms[i:i + 25] for i in range(0, len(terms), 25)]
@@ -507,7 +547,7 @@ def run_coq_cases(terms, show=False):
                 src += ''.join('Eval vm_compute in (show case%d store_order).\n' % i for i, _ in ch)
             src += 'Eval vm_compute in (failing 0 all).\n'
             f = os.path.join(d, 'Cases%d.v' % ci); open(f, 'w').write(src)
-            p = subprocess.run(['timeout', '600', 'coqc', '-Q', core.COQ, 'NB', f], capture_output=True, text=True, cwd=d)
+            p = subprocess.run(['timeout', '600', 'coqc', '-Q', core.COQ, 'NB', '-Q', pm.dir, 'C20P', f], capture_output=True, text=True, cwd=d)
             return ch, p
         with ThreadPoolExecutor(max_workers=8) as ex:
             outs = list(ex.map(one, range(len(chunks))))
@@ -606,6 +646,7 @@ def run(tier, seed):
     r = chk.rng
     nscn = 160 if tier == 'quick' else 1500
     tasks = [c20_gen.f12_scenario()] + [c20_gen.gen_scenario(r) for _ in range(nscn)]
+    pm = PrivateModel()
     T = Tables()
     nn = core.run_impl([{'op': 'newnb'}], script='c20_runner.py')[0]
     if 'ok' not in nn:
@@ -624,7 +665,7 @@ def run(tier, seed):
     tm['tables'] = time.time() - t0; t0 = time.time()
 
     # ---- refutation witness of malformed_no_effect_as_coded replayed on the implementation
-    fact = store_order_fact()
+    fact = pm.store_order()
     if scns and scns[0].task is tasks[0]:
         w = scns[0]
         trunc = bool(w.trace) and w.trace[0]['changed'] == ['work/out.ipynb'] and (w.trace[0]['changed_now'].get('work/out.ipynb') or {}).get('t') == ''
@@ -688,8 +729,8 @@ def run(tier, seed):
             chk.notes.append('case %d not expressible: %r' % (si, e))
         if t is None: inexpressible += 1; continue
         terms.append((si, t))
-    if os.path.exists(os.path.join(core.COQ, 'Sys', 'ServerRun.vo')):
-        bad, err = run_coq_cases(terms)
+    if pm.error is None:
+        bad, err = run_coq_cases(pm, terms)
         if err:
             chk.broken_obligation('correspondence:coqc', err)
         t1 = len(terms)
@@ -697,7 +738,7 @@ def run(tier, seed):
             mism += 1
             if mism <= 3:
                 sc = scns[si]
-                _, shown = run_coq_cases([(si, dict(terms)[si])], show=True)
+                _, shown = run_coq_cases(pm, [(si, dict(terms)[si])], show=True)
                 k = stepsbad[0]
                 chk.broken_obligation('correspondence:serve', {
                     'start': sc.start, 'mismatching_steps': stepsbad,
@@ -705,7 +746,8 @@ def run(tier, seed):
                     'implementation': ({'status': sc.trace[k]['status'], 'changed': sc.trace[k]['changed']} if k < len(sc.trace) else {'exit_code': sc.res.get('exit_code'), 'stopped': sc.res.get('stopped_by_server')}),
                     'model': (shown or '')[-1200:], 'scenario': {'op': 'serve', 'start': sc.start, 'files': sc.task['files'], 'requests': sc.reqs}})
     else:
-        chk.broken_obligation('model-build', b.log[-800:])
+        chk.broken_obligation('model-build', pm.error)
+    pm.close()
     tm['coq_cases'] = time.time() - t0
     chk.notes.append('phase seconds: ' + ', '.join('%s=%.1f' % kv for kv in tm.items()))
     chk.cov.update({
